@@ -3692,6 +3692,13 @@ class Session(_SessionClassMethods, EventTarget):
             else:
                 return
 
+        if state._deleted and not head:
+            # reached by the delete cascade along a collection that still
+            # lists it, but a previous flush already emitted its DELETE
+            # (the object is in the "deleted" state); it must not be put
+            # back into the identity map and deleted a second time
+            return
+
         to_attach = self._before_attach(state, obj)
 
         if state in self._deleted:
